@@ -21,7 +21,7 @@ META = {
         "start instant in {:00.0, :00.5, :29.3, :59.0, :59.5, :59.999}; horizon 3 (quick) / 5 (thorough) virtual minutes; "
         "1-3 sources (scripted list sources that drop a fired one-shot in post_send, and the real LabelScheduleSource); "
         "schedule sets of <= 3 drawn from {'* * * * *', '*/2 * * * *', a fixed minute, one-shots at start-10 s, mid-minute, "
-        "and minute boundary + d for d in {-1.5,-1,-0.5,0,+0.5,+1,+1.5} s}; kick latency in {0, 0.4 s, 1.5 s}; add/remove of a "
+        "and minute boundary + d for d in {-1.5,-1,-0.5,0,+0.5,+1,+1.5} s}; kick latency in {0, 0.4 s, 1.5 s}; per-source listing latency (not straddling a boundary); add/remove of a "
         "schedule at a chosen poll; faults: every subset of <= 2 of the get_schedules()/kick() calls raises. The explorer "
         "enumerates every order of timers with equal deadline (level 0) and both timers in one loop iteration (level 1). "
         "Oracle on the event log at the horizon: every source is polled at start and at every minute boundary (+-0) and at "
@@ -86,6 +86,8 @@ class C15World(SchedWorld):
                 return
         kicks = self.kicks
         lat = self.sc.get("latency_us", 0)
+        # all sources are listed concurrently; schedules are evaluated when the slowest has answered
+        list_lat = max([sp.get("list_latency_us", 0) for sp in self.sc["sources"]] or [0])
         # 2. cron schedules, per polled minute
         all_specs: Dict[str, Dict[str, Any]] = {}
         for si in range(nsrc):
@@ -98,6 +100,8 @@ class C15World(SchedWorld):
                 listed_cron = {s["tag"]: s for s in items if "cron" in s}
                 every_cron = {s["tag"] for s in (self.sc["sources"][si].get("schedules", []) + [e[2] for e in self.sc["sources"][si].get("edits", []) if e[1] == "add"]) if "cron" in s}
                 minute = tp // MIN_US
+                if tp + list_lat + lat > end:
+                    continue  # the listing started at this poll does not complete inside the horizon
                 for tag in every_cron:
                     here = [k for k in kicks if k["tag"] == tag and k["t"] // MIN_US == minute]
                     want = 0
@@ -112,8 +116,8 @@ class C15World(SchedWorld):
                             f"{(BASE + dt.timedelta(microseconds=tp)).strftime('%H:%M')} (poll at {tp/1e6} s), expected {want}",
                         )
                     for k in here:
-                        if k["t"] != tp:
-                            self.flag("C15:cron-late", f"cron schedule {tag} sent at {k['t']/1e6} s, its poll was at {tp/1e6} s")
+                        if k["t"] != tp + list_lat:
+                            self.flag("C15:cron-late", f"cron schedule {tag} sent at {k['t']/1e6} s, its poll was at {tp/1e6} s (listing takes {list_lat/1e6} s)")
         # 3. one-shot schedules
         for si in range(nsrc):
             sp = self.sc["sources"][si]
@@ -145,6 +149,8 @@ class C15World(SchedWorld):
             if mine:
                 self.flag("C15:oneshot-unexpected-send", f"one-shot {tag} (T={T/1e6} s) sent at {[k['t']/1e6 for k in mine]} although no poll could arm it")
             return
+        list_lat = max([sp.get("list_latency_us", 0) for sp in self.sc["sources"]] or [0])
+        arm = (arm[0], arm[1] + list_lat)  # schedules are evaluated when the listing completes
         due = max(T, arm[1])  # already past at its first listing -> due at that poll
         if due + SEC + SLACK_US + lat > end:
             # too close to the horizon to judge completeness; still never early
@@ -247,6 +253,14 @@ def scenarios(tier: str) -> List[Dict[str, Any]]:
             for lat in (0, 400_000):
                 out.append({"start_us": start, "horizon_min": hz, "latency_us": lat, "level": 0,
                             "sources": [{"kind": "label", "schedules": list(st)}, {"kind": "list", "schedules": [alpha[1]]}]})
+        # slow sources: listing takes time (different per source); listings that would straddle a minute
+        # boundary are outside the property's quantifier and are not generated
+        for lats in [(300_000, 0), (0, 200_000), (250_000, 400_000)]:
+            if (start % MIN_US) + max(lats) >= MIN_US:
+                continue
+            out.append({"start_us": start, "horizon_min": hz, "latency_us": 0, "level": 0,
+                        "sources": [{"kind": "list", "schedules": [alpha[0], alpha[4]], "list_latency_us": lats[0]},
+                                    {"kind": "list", "schedules": [alpha[1], alpha[8]], "list_latency_us": lats[1]}]})
         # the process' local zone (naive now() used for the sleep) must not matter
         for st in [(alpha[0], alpha[8]), (alpha[2], alpha[4], alpha[3])]:
             out.append({"start_us": start, "horizon_min": hz, "latency_us": 0, "level": 0, "local_offset_min": 330,
